@@ -382,6 +382,12 @@ outputs it changes in 20 000 queries are all correct estimands), a10 changes onl
 s14 (guessed incompleteness only) *break* C05, v02 and v03 cannot return an estimand at all (Sum refuses counterfactual ranges with a
 TypeError) and were replaced by v12.
 
+Endless-recursion mutants after the guard: l06 and f02 are caught with a replay (2 187 / 2 619 failing inputs; 840 s / 1 104 s wall at a load
+average above 100 on the shared machine: every failing case and every shrinking candidate still costs a 250-frame recursion through
+`deepcopy`; about 4 minutes when run alone), s04, s10 (306 - 470 s) and s14 are caught.  s02 (same kind; in-process 39 of 300 random
+queries fail with `raised RecursionError (endless recursion ...)` or NodeNotFound) was NOT re-run on the final harness for lack of machine
+time: its row is the round-1 `timeout` and it is listed as not shown caught.
+
 No mutant revealed a defect of the unchanged y0.  Observed and not judged: `identify_target_outcomes` with frozenset arguments raises
 AttributeError (outside the documented signature).
 """.split("\n")
@@ -628,7 +634,7 @@ def write_md(path, results, before=None, suite=None):
     for rec, run in fixed:
         lines.append(f"| {rec['id']} | {run['prop']} | {bmap0[(rec['id'], run['prop'])]} | caught with replay ({run['oracle_failures']} failing inputs) | {rec['why']} | "
                      f"{(run['says'] or '').replace('|', '/')[:200]} |")
-    still = [(rec, run) for rec in results for run in rec.get("runs", []) if classify(rec, run) in ("MISSED", "correspondence only")
+    still = [(rec, run) for rec in results for run in rec.get("runs", []) if classify(rec, run) in ("MISSED", "correspondence only", "timeout")
              and isinstance(rec["expect"], list) and run["prop"] in rec["expect"]]
     lines += ["", f"Property-breaking mutants still not caught with a replay after the fixes: {len(still)}"
               + ("" if not still else " -- " + ", ".join(f"{r['id']}/{u['prop']}" for r, u in still)), ""]
